@@ -87,6 +87,12 @@ impl MutableItem {
     ) -> Result<Self, MutableError> {
         let key = VerifyingKey::try_from(key).map_err(|_| MutableError::InvalidMutablePublicKey)?;
 
+        // The target must be the hash of this key (and salt), otherwise anyone
+        // could store or serve an item signed with their own key under this target.
+        if MutableItem::target_from_key(key.as_bytes(), salt.as_deref()) != target {
+            return Err(MutableError::InvalidMutablePublicKey);
+        }
+
         let signature =
             Signature::from_slice(signature).map_err(|_| MutableError::InvalidMutableSignature)?;
 
